@@ -51,6 +51,8 @@ func main() {
 			oracleDebounce(os.Args[3], os.Args[4])
 		case "sender":
 			oracleSender(os.Args[3], os.Args[4])
+		case "server":
+			oracleServer(os.Args[3], os.Args[4])
 		default:
 			fmt.Fprintln(os.Stderr, "unknown stream", os.Args[2])
 			os.Exit(2)
@@ -73,6 +75,14 @@ func execOps(stream, in, outp string) {
 		s = newDebSUT(5, 20, true)
 	case "sender":
 		s = newSndSUT(0, 1)
+	case "server":
+		b := &srvBox{}
+		defer func() {
+			if b.s != nil {
+				b.s.close()
+			}
+		}()
+		s = b
 	default:
 		fmt.Fprintln(os.Stderr, "unknown stream", stream)
 		os.Exit(2)
@@ -111,6 +121,8 @@ func gen(stream string, seed uint64, n int, outp string) {
 			genDebounceCase(r, c, out)
 		case "sender":
 			genSenderCase(r, c, out)
+		case "server":
+			genServerCase(r, c, out)
 		default:
 			fmt.Fprintln(os.Stderr, "unknown stream", stream)
 			os.Exit(2)
